@@ -18,10 +18,20 @@ pub trait StrExt {
 
 impl StrExt for str {
     fn has_linebreak(&self) -> bool {
-        self.contains('\n')
+        // Typst ends lines at more characters than `\n` (e.g. a lone `\r` or U+2028).
+        self.chars().any(typst_syntax::is_newline)
     }
 
     fn count_linebreaks(&self) -> usize {
-        self.chars().filter(|c| *c == '\n').count()
+        // Count line breaks the way Typst's lexer does: `\r\n` is a single one.
+        let mut count = 0;
+        let mut after_cr = false;
+        for c in self.chars() {
+            if typst_syntax::is_newline(c) && !(after_cr && c == '\n') {
+                count += 1;
+            }
+            after_cr = c == '\r';
+        }
+        count
     }
 }
